@@ -18,13 +18,14 @@ def available_checks():
   return out
 
 
-def digests(pid, n, tier='quick', base=777):
+def digests(pid, n, tier='quick', base=777, reverse=False):
   check = runner._load_check(pid)
   from worlds import common as _wc
   _wc.TIER = tier
   out = []
-  for stratum in check.PLAN[tier]['strata']:
-    for i in range(n):
+  strata = list(check.PLAN[tier]['strata'])
+  for stratum in (reversed(strata) if reverse else strata):
+    for i in (range(n - 1, -1, -1) if reverse else range(n)):
       seed = runner.run_seed(base, pid, stratum, i)
       sc = check.generate(seed, stratum, tier)
       r = runner.execute_one(check, sc, {'mode': 'seeded', 'seed': seed})
@@ -290,11 +291,12 @@ def main(a):
     bad += 1
   # same seeds twice in this process
   first = {p: digests(p, n) for p in pids}
-  second = {p: digests(p, n) for p in pids}
+  # the second pass runs the same seeds in the opposite order: a run must not depend on which runs the process made before it
+  second = {p: sorted(digests(p, n, reverse=True), key=lambda r: (list(runner._load_check(p).PLAN['quick']['strata']).index(r[0]), r[1])) for p in pids}
   for p in pids:
     if first[p] != second[p]:
       bad += 1
-      print('NON-DETERMINISTIC (same process): %s' % p)
+      print('NON-DETERMINISTIC (same process, seeds run in the opposite order): %s' % p)
       for x, y in zip(first[p], second[p]):
         if x != y:
           print('   ', x, '\n   ', y)
@@ -338,6 +340,6 @@ def main(a):
           if list(x) != list(y):
             print('   ', x, '\n   ', y)
             break
-  print('selftest: %d checks x %d seeds per stratum, twice in-process and once in a fresh interpreter: %s' % (
+  print('selftest: %d checks x %d seeds per stratum, twice in-process (the second time in the opposite order) and once in a fresh interpreter: %s' % (
     len(pids), n, 'OK' if not bad else '%d PROBLEMS' % bad))
   return 0 if not bad else 2
